@@ -36,7 +36,7 @@ def sync_scratch_harness():
     if not TAG:
         return
     os.makedirs(SCRATCH, exist_ok=True)
-    subprocess.run(['rsync', '-a', '--delete', '--exclude', 'target', os.path.join(VERIF, 'harness') + '/', HDIR + '/'], check=True)
+    subprocess.run(['rsync', '-a', '--delete', '--exclude', 'target', '--exclude', 'c17_prog.rs', os.path.join(VERIF, 'harness') + '/', HDIR + '/'], check=True)
     ct = os.path.join(HDIR, 'Cargo.toml')
     t = open(ct).read().replace('path = "/repo"', 'path = "%s"' % REPO)
     open(ct, 'w').write(t)
@@ -355,10 +355,10 @@ class Check:
         if s.prop == 'C17':
             # seeded random straight-line programs, regenerated on every run (VERIF_SEED)
             n = s.table.get('*', {}).get('programs', {}).get(s.tier, 20)
-            r = sh([sys.executable, os.path.join(VERIF, 'tools', 'gen_c17.py'), 'programs', str(s.seed), str(n)])
+            r = sh([sys.executable, os.path.join(VERIF, 'tools', 'gen_c17.py'), 'programs', str(s.seed), str(n)],
+                   env=dict(os.environ, VERIF_HDIR=HDIR if TAG else ''))
             if r.returncode != 0:
                 raise BuildError('program generator failed: ' + r.stderr[-2000:])
-            sync_scratch_harness()
         path, dt = dump_mir(s.feature)
         s.dump_s = dt
         s.text = open(path).read()
@@ -642,9 +642,12 @@ class Check:
                     if strict == 'bits':
                         return (not same_bits(a, b)), 'native lhs=%r rhs=%r (bit-exact comparison)' % (a, b)
                     if strict:
-                        same = (a == b) or (isinstance(a, float) and isinstance(b, float) and abs(a - b) <= 1e-9 * max(abs(a), abs(b)))
+                        # only used after exact_run_fails(): the code, run on these very inputs in exact rational arithmetic
+                        # (no irrational opaque function involved), fails the assertion -- a rigorous counterexample over the
+                        # reals.  The native run then only has to show that the real build differs as well, by however little.
+                        same = (a == b) or (isinstance(a, float) and isinstance(b, float) and a != a and b != b)
                         return (not same), 'native lhs=%r rhs=%r' % (a, b)
-                    return (not close(a, b)), 'native lhs=%r rhs=%r' % (a, b)
+                    return (not close(a, b, s.opts(h).get('replay_tol', 1e-6))), 'native lhs=%r rhs=%r' % (a, b)
         return False, 'assertion not reached natively'
 
     def robust_models(s, ob, o, order, first_model):
@@ -653,6 +656,17 @@ class Check:
         for m in s.bounded_models(ob, o, order):
             yield m
         yield first_model
+        # When the failing clause is about an uninterpreted predicate (is_finite, ulps_eq ...), the model fixes the
+        # predicate's value, not inputs that realise it: also try the extreme magnitudes (largest finite values, whose
+        # sums overflow; tiny values inside every absolute tolerance).
+        fl = [nm for nm, lt in order if lt in mir.FLOATS]
+        if fl and len(fl) <= 64:
+            big = Fraction(1.7976931348623157e308)
+            for pat in ([big], [-big], [big, Fraction(0)], [Fraction(0), big], [Fraction(2.0 ** -70)], [big, -big]):
+                cand = {nm: first_model.get(nm) for nm, lt in order}
+                for i, nm in enumerate(fl):
+                    cand[nm] = pat[i % len(pat)]
+                yield cand
         if o.get('exact_replay'):
             # operations are uninterpreted in this mode, so the solver's model says nothing about rounding: also try
             # inputs whose quotients and products are inexact
@@ -832,7 +846,7 @@ class Check:
         json.dump({'property': s.prop, 'harness': base, 'assert': ob['id'], 'leaf': ob['leaf'], 'kind': ob['kind'],
                    'inputs': [{'name': nm, 'type': lt, 'value': v, 'token': leaf_tok(v)} for (nm, lt), v in zip(order, vec)],
                    'native': why, 'criterion': 'strict-relative' if 'tiny residual' in why else ('bits' if 'bit-exact' in why else 'default'),
-                   'tol': s.opts(h).get('vector_tol', 1e-6) if 'curated' in why else 1e-6, 'replay_cmd': './check %s --replay %s' % (s.prop, fn)}, open(fn, 'w'), indent=1)
+                   'tol': s.opts(h).get('vector_tol', 1e-6) if 'curated' in why else s.opts(h).get('replay_tol', 1e-6), 'replay_cmd': './check %s --replay %s' % (s.prop, fn)}, open(fn, 'w'), indent=1)
         return fn
 
     # ---------------- differential validation of the executor
@@ -1131,7 +1145,7 @@ def replay_file(prop, path):
                     else:
                         x, y = e[2][d['leaf']], e[3][d['leaf']]
                         if d.get('criterion') == 'strict-relative':
-                            failed = not ((x == y) or (isinstance(x, float) and isinstance(y, float) and abs(x - y) <= 1e-9 * max(abs(x), abs(y))))
+                            failed = not ((x == y) or (isinstance(x, float) and isinstance(y, float) and x != x and y != y))
                         elif d.get('criterion') == 'bits':
                             failed = not same_bits(x, y)
                         else:
